@@ -3,7 +3,7 @@ from proto_engine import *
 import kv_engine
 
 MODULE = "Feox.Props.C05W"
-THEOREMS = ['Feox.C05.released_space_is_reusable_on_bytes', 'Feox.C05.device_partitioned_by_index', 'Feox.Fmt.repTiled_sound', 'Feox.Fmt.tileOf_sound', 'Feox.Fmt.repB_sound', 'Feox.C05.accept_part', 'Feox.C05.accepted_trace_part', 'Feox.C05.partition_after_any_history', 'Feox.C05.apply_part', 'Feox.C05.release_valid', 'Feox.C05.partition', 'Feox.C05.extents_disjoint_in_bounds', 'Feox.C05.no_cross_damage', 'Feox.C05.empty_is_fresh', 'Feox.C05.no_leak', 'Feox.Proto.TiledBy.partition', 'Feox.Proto.TiledBy.recs']
+THEOREMS = ['Feox.Fmt.crashed_front_write_space_safe', 'Feox.Fmt.recover_crashed_image_space', 'Feox.C05.released_space_is_reusable_on_bytes', 'Feox.C05.device_partitioned_by_index', 'Feox.Fmt.repTiled_sound', 'Feox.Fmt.tileOf_sound', 'Feox.Fmt.repB_sound', 'Feox.C05.accept_part', 'Feox.C05.accepted_trace_part', 'Feox.C05.partition_after_any_history', 'Feox.C05.apply_part', 'Feox.C05.release_valid', 'Feox.C05.partition', 'Feox.C05.extents_disjoint_in_bounds', 'Feox.C05.no_cross_damage', 'Feox.C05.empty_is_fresh', 'Feox.C05.no_leak', 'Feox.Proto.TiledBy.partition', 'Feox.Proto.TiledBy.recs']
 
 
 def leftover_partition_stage(ctx, cov):
